@@ -20,15 +20,22 @@ ASSUMPTIONS = ["callee summaries used: Step.run (proved by V1/S1), run_hook (pro
                "features/rules/scenarios (proved by V2/V3)"]
 
 
+def t_generic(chk, ix):
+    # retry / patch helpers must not hand out late-bound closures (a patched scenario running another one's run())
+    from .. import rules_generic
+    rules_generic.check_late_binding(chk, ix)
+
+
 def run(chk, ix, tier):
     run_parallel(chk, [
-        (T.t_step, (("V1",),)),
+        (T.t_step, (("V1", "S1"),)),
         (T.t_scenario, (("V2",),)),
     ] + T.container_tasks(("V3", "ST")) + [
         (T.t_run_model, (("V4", "V6", "STM"),)),
         (T.t_run_hook, (("V6",),)),
         (T.t_run_behave, ()),
         (T.t_abort_wiring, ()),
+        (t_generic, ()),
     ])
-    for r, n in (("V1", 8), ("V2", 1), ("V3", 3), ("V4", 1), ("V5", 2), ("V6", 10), ("V7", 5)):
+    for r, n in (("V1", 8), ("V2", 1), ("V3", 3), ("V4", 1), ("V5", 2), ("V6", 10), ("V7", 5), ("S1", 8), ("RF5", 10)):
         chk.require_instances(r, n)
